@@ -264,6 +264,26 @@ def run_case(case):
 BOUNDARY = [0x00, 0x7F, 0x80, 0x8F, 0x90, 0x9F, 0xA0, 0xBF, 0xC0, 0xFF]
 
 
+PIECES = [b"", b"abc", b"\xe2\x82", b"\xac", b"\xe2", b"\x82\xac", "\u20ac".encode(), b"\xf0\x9f", b"\x98\x80", b"\xc3", b"\xa9", b"\x80"]
+
+
+def piece_cases(shard, of):
+    """Every message of 1..4 fragments whose fragments are drawn from PIECES (leads, continuations, ASCII, complete
+    characters, nothing): validity is a property of the concatenation, whatever lies between the halves of a character."""
+    import itertools
+
+    i = 0
+    for n in (1, 2, 3, 4):
+        for combo in itertools.product(range(len(PIECES)), repeat=n):
+            i += 1
+            if i % of != shard:
+                continue
+            parts = [PIECES[k] for k in combo]
+            specs = [{"fin": int(j == n - 1), "op": rm.TEXT if j == 0 else rm.CONT, "p": p, "key": None} for j, p in enumerate(parts)]
+            yield {"frames": specs, "driver": ("data", "recv", "data_frame")[i % 3], "skip": False, "mut": "pieces", "as_close": False, "text": b"".join(parts), "resume": False,
+                   "cf": i % 5 == 0}
+
+
 def close_reason_cases():
     """Close reasons of every length 0..123 (the control-frame limit) ending in each kind of complete / cut-short / stray sequence."""
     tails = [b"", "é".encode(), "€".encode(), "😀".encode(), b"\xc3", b"\xe2", b"\xe2\x82", b"\xf0", b"\xf0\x9f", b"\xf0\x9f\x98", b"\x80", b"\xed\xa0\x80", b"\xc0\xaf"]
@@ -283,6 +303,7 @@ def jobs(tier, seed):
         out.append({"name": f"len2-{g}", "kind": "cases", "cases": [{"batch": "len2", "lead": a} for a in range(g * 32, g * 32 + 32)]})
     out.append({"name": "len4", "kind": "cases", "cases": [{"batch": "len4", "lead": a, "set": BOUNDARY} for a in range(0xF0, 0xF8)]})
     out.append({"name": "long-texts", "kind": "long"})
+    out += [{"name": f"pieces-{k}", "kind": "pieces", "shard": k, "of": 4} for k in range(4)]
     if tier == "quick":
         out.append({"name": "len3-boundary", "kind": "cases",
                     "cases": [{"batch": "len3", "lead": a, "thirds": BOUNDARY} for a in range(0xE0, 0xF0)]})
@@ -301,6 +322,11 @@ def run_job(job, coll):
             coll.check(c, run_case)
         for c in close_reason_cases():
             coll.check(c, run_case)
+        return
+    if job["kind"] == "pieces":
+        for c in piece_cases(job["shard"], job["of"]):
+            coll.check(c, run_case)
+        coll.exhaustive["all messages of 1..4 fragments over a 12-piece alphabet of leads / continuations / ASCII / characters"] = True
         return
     if job["kind"] == "cases":
         for c in job["cases"]:
